@@ -41,6 +41,8 @@ Definition forced_inf := Forced false false true.
 Record fixes := { fixA : bool; fixB : bool; fixC : bool; fixD : bool }.
 Definition faithful := {| fixA := false; fixB := false; fixC := false; fixD := false |}.
 Definition repaired := {| fixA := true; fixB := true; fixC := true; fixD := true |}.
+(* the code as it is after the `fix:` commits for A, B and D (class C is a known finding) *)
+Definition current := {| fixA := true; fixB := true; fixC := false; fixD := true |}.
 
 Record scope := {
   s_end : option End;              (* Scope::end *)
